@@ -84,6 +84,9 @@ def extract(unit, config="default", extra=(), files=None, outdir=None, jobs=16):
     if not os.path.exists(FACTDUMP):
         raise AnalysisBroken("extractor not built: run ./setup.sh (MANIFEST.setup_cmd)")
     files = files if files is not None else unit_files(unit)
+    if unit == "S" and config in ("nooer", "none"):
+        # the CODEC-OER files are not shipped (and do not compile) when OER support is disabled
+        files = [f for f in files if not (os.path.basename(f).startswith("oer_") or os.path.basename(f).endswith("_oer.c"))]
     if not files:
         raise AnalysisBroken("no source files for unit %s" % unit)
     own = outdir is None
